@@ -364,6 +364,43 @@ func Verif_C13_endpoint_cooldown() {
 	}
 }
 
+// Verif_C13_endpoint_cooldown_concurrent: two first packets of one source arrive concurrently while
+// the dial takes time, and the dial fails. Within the cool-down (the clock is arbitrary, bounded
+// below 2 s for the whole run) only one dial is made whichever goroutine leads: the follower is
+// refused with the cool-down error rather than dialling again.
+func Verif_C13_endpoint_cooldown_concurrent() {
+	vs.Schedules(0)
+	vs.Assume(time.Now().After(time.Unix(1000, 0)))
+	p := &UdpEndpointPool{janitorStop: make(chan struct{}), janitorDone: make(chan struct{})}
+	for i := range p.shards {
+		p.shards[i].pool = make(map[UdpEndpointKey]*UdpEndpoint, 4)
+	}
+	fd := &c13Dialer{failFirst: 2}
+	d := &dialer.Dialer{Dialer: fd}
+	key := UdpEndpointKey{Src: netip.MustParseAddrPort("10.0.0.1:1000")}
+	opt := func() *UdpEndpointOptions {
+		return &UdpEndpointOptions{
+			Handler:    func(ue *UdpEndpoint, data []byte, from netip.AddrPort) error { return nil },
+			NatTimeout: 30 * time.Second,
+			GetDialOption: func(ctx context.Context) (*DialOption, error) {
+				return &DialOption{Target: "8.8.8.8:53", Dialer: d, Network: "udp"}, nil
+			},
+		}
+	}
+	t0 := time.Now()
+	var got [2]*UdpEndpoint
+	var errs [2]error
+	for i := 0; i < 2; i++ {
+		i := i
+		go func() { got[i], _, errs[i] = p.GetOrCreate(key, opt()) }()
+	}
+	vs.Join()
+	vs.Assume(time.Now().Sub(t0) < 2*time.Second)
+	vs.Assert("no endpoint is handed out for a failed dial", got[0] == nil && got[1] == nil && errs[0] != nil && errs[1] != nil)
+	vs.Assert("concurrent first packets cause a single dial even when it fails", fd.dials == 1)
+	vs.Assert("the follower is refused by the cool-down", stderrors.Is(errs[0], ErrEndpointFailed) || stderrors.Is(errs[1], ErrEndpointFailed))
+}
+
 // Verif_C13_endpoint_invalidation: the node behind an endpoint is reported not alive. An endpoint
 // that has not carried traffic yet is retired, its transport closed once, and it is never handed
 // out again (the next packet dials anew); one that has already forwarded a packet is kept. Whether
